@@ -25,6 +25,9 @@ $(B)/gen/smooth/version.hpp: $(REPO)/config/version.hpp.in $(REPO)/CMakeLists.tx
 $(B)/mc.o: $(ROOT)/mc/mc.cpp $(ROOT)/mc/mc.hpp
 	@mkdir -p $(dir $@)
 	$(CXX) -std=c++20 -O2 -pthread -I$(ROOT)/mc -c $< -o $@
+$(B)/fill_malloc.o: $(ROOT)/mc/fill_malloc.cpp
+	@mkdir -p $(dir $@)
+	$(CXX) -std=c++20 -O2 -fno-builtin -c $< -o $@
 
 # per-check extra flags: checks/<ID>/flags.mk may set FLAGS_<ID> and LIBS_<ID>
 -include $(wildcard $(ROOT)/checks/*/flags.mk)
@@ -36,7 +39,7 @@ $(B)/$(1)/main.o: $(ROOT)/mc/main.cpp $(ROOT)/mc/mc.hpp
 $(B)/$(1)/%.o: $(ROOT)/checks/$(1)/%.cpp $(B)/gen/smooth/version.hpp $(ROOT)/Makefile $$(wildcard $(ROOT)/checks/$(1)/flags.mk)
 	@mkdir -p $$(dir $$@)
 	$(CXX) $(BASE) $$(FLAGS_$(1)) -c $$< -o $$@
-$(B)/$(1)/run: $(B)/$(1)/main.o $(B)/mc.o $$(patsubst $(ROOT)/checks/$(1)/%.cpp,$(B)/$(1)/%.o,$$(wildcard $(ROOT)/checks/$(1)/*.cpp))
+$(B)/$(1)/run: $(B)/$(1)/main.o $(B)/mc.o $$(if $$(NOFILL_$(1)),,$(B)/fill_malloc.o) $$(patsubst $(ROOT)/checks/$(1)/%.cpp,$(B)/$(1)/%.o,$$(wildcard $(ROOT)/checks/$(1)/*.cpp))
 	$(CXX) -pthread $$^ $$(LIBS_$(1)) -o $$@
 endef
 $(foreach c,$(CHECKS),$(eval $(call CHECK_RULES,$(c))))
